@@ -13,6 +13,7 @@ Outside symbolic reach (compiled pydantic-core / pandas / zip writers): the byte
 serialisers and JSON parsing; they are exercised by a concrete layer only (real solutions, round trips),
 which is trace validation and not the deciding step."""
 import io
+import itertools
 import json
 import os
 import tempfile
@@ -625,6 +626,30 @@ def run_concrete(tag):
             objs = [ps.FixedDurationTask(name="F", duration=7, priority=3, work_amount=2, release_date=1, due_date=20, due_date_is_deadline=False, optional=True),
                     ps.ZeroDurationTask(name="Z0", release_date=0),
                     ps.VariableDurationTask(name="V", min_duration=0, max_duration=9, allowed_durations=[1, 3, 9])]
+        elif tag == "definitions_tasks_grid":
+            # every field at its boundary values, 0 and None included (0 and "absent" must stay distinct)
+            k = 0
+            for dur, prio, wa, rel, due, dl, opt in itertools.product((1, 7), (0, 3), (0, 2), (None, 0, 4), (None, 0, 20), (False, True), (False, True)):
+                kw = dict(priority=prio, work_amount=wa, optional=opt, due_date_is_deadline=dl)
+                if rel is not None:
+                    kw["release_date"] = rel
+                if due is not None:
+                    kw["due_date"] = due
+                k += 1
+                objs.append(ps.FixedDurationTask(name=f"F{k}", duration=dur, **kw))
+                if dur == 1:
+                    objs.append(ps.ZeroDurationTask(name=f"Z{k}", **kw))
+                    for mn, mx, al in ((0, None, None), (0, 1, None), (2, 9, [2, 9]), (0, None, [1])):
+                        vkw = dict(kw, min_duration=mn)
+                        if mx is not None:
+                            vkw["max_duration"] = mx
+                        if al is not None:
+                            vkw["allowed_durations"] = al
+                        objs.append(ps.VariableDurationTask(name=f"V{k}_{mn}_{mx}_{len(al or [])}", **vkw))
+        elif tag == "definitions_functions_grid":
+            vals = (-3, 0, 1, 10 ** 12)
+            objs = [ps.ConstantFunction(value=v) for v in vals] + [ps.LinearFunction(slope=a, intercept=b) for a in vals for b in vals]
+            objs += [ps.PolynomialFunction(coefficients=list(c)) for n in (1, 2, 3) for c in itertools.product((-3, 0, 2), repeat=n)]
         else:
             objs = [ps.ConstantFunction(value=0), ps.ConstantFunction(value=7), ps.LinearFunction(slope=-2, intercept=0),
                     ps.LinearFunction(slope=0, intercept=5), ps.PolynomialFunction(coefficients=[1, 0, -3, 0])]
@@ -633,7 +658,7 @@ def run_concrete(tag):
             d = json.loads(js)
             pb2 = ps.SchedulingProblem(name="defs2")
             try:
-                if tag == "definitions_tasks":
+                if tag.startswith("definitions_tasks"):
                     back = pb2.add_from_json(js)
                 else:
                     back = type(o).model_validate_json(js)
@@ -645,8 +670,8 @@ def run_concrete(tag):
                     continue
                 if getattr(back, fld) != getattr(o, fld):
                     problems.append(f"{type(o).__name__}.{fld}: {getattr(o, fld)!r} became {getattr(back, fld)!r} after the JSON round trip")
-            if tag != "definitions_tasks":
-                for x in (0, 1, 5):
+            if not tag.startswith("definitions_tasks"):
+                for x in (0, 1, 5, -2):
                     if back(x) != o(x):
                         problems.append(f"{type(o).__name__}: value at {x} changed after the round trip")
     return problems
@@ -679,7 +704,7 @@ def shapes(tier):
     for v in ("plain", "workers", "cumulative", "buffer_indicator", "optional_zero"):
         out.append(table_shape(v, "dataframe"))
         out.append(table_shape(v, "excel"))
-    for tag in ("solution_all_scheduled", "solution_unscheduled", "solution_buffer", "solution_calendar", "definitions_tasks", "definitions_functions"):
+    for tag in ("solution_all_scheduled", "solution_unscheduled", "solution_buffer", "solution_calendar", "definitions_tasks", "definitions_functions", "definitions_tasks_grid", "definitions_functions_grid"):
         out.append(concrete_shape(tag))
     return out
 
